@@ -140,12 +140,24 @@ def ok(v):
     return [0, v[1]] if v[0] == 0 else [1]
 
 
-def run_fn_suite(ctx, exe, cases, suite):
-    raws = vlib.run_impl('layoutfn.layout_report',
-                         [{'src': c['src'], 'queries': c['queries'], 'var_queries': c['var_queries'],
-                           'gvar_queries': c['gvar_queries']} for c in cases])
+def direct_case(c):
+    """the same declarations as symbol tables built without the parser"""
+    exp = c['exp']
+    return {'recs': [[n, [[fn, S.model_ty(ft)] for fn, ft in fs]] for n, fs in exp['recs']],
+            'shared': model_decls(exp['shared']),
+            'routines': [[rn, model_decls(ps), model_decls(ls), model_decls(st)]
+                         for rn, ps, ls, st in exp['routines']],
+            'queries': c['queries'], 'var_queries': c['var_queries'], 'gvar_queries': c['gvar_queries']}
+
+
+def run_fn_suite(ctx, exe, cases, suite, direct=False):
+    if direct:
+        raws = vlib.run_impl('layoutfn.layout_direct', [direct_case(c) for c in cases])
+    else:
+        raws = vlib.run_impl('layoutfn.layout_report',
+                             [{'src': c['src'], 'queries': c['queries'], 'var_queries': c['var_queries'],
+                               'gvar_queries': c['gvar_queries']} for c in cases])
     jobs = []
-    owner = []
     for ci, c in enumerate(cases):
         exp = c['exp']
         env = S.model_env(exp['recs'])
@@ -153,38 +165,31 @@ def run_fn_suite(ctx, exe, cases, suite):
         for rn, ps, ls, st in exp['routines']:
             globs += [(f'_static_{rn}_{n}', t) for n, t in st]
         c['globs'] = globs
-        for rn, ps, ls, st in exp['routines']:
-            jobs.append([9, env, model_decls(ps), model_decls(ls)])
-            owner.append((ci, 'routine', rn))
-            jobs.append([4, env, model_decls(ps), model_decls(ls)])
-            owner.append((ci, 'sizes', rn))
-        jobs.append([8, model_decls(exp['shared']),
-                     [[rn, model_decls(st)] for rn, ps, ls, st in exp['routines']]])
-        owner.append((ci, 'gnames', None))
-        for n, t in globs:
-            jobs.append([3, env, model_decls(globs), n])
-            owner.append((ci, 'gidx', n))
-            jobs.append([1, env, S.model_ty(t)])
-            owner.append((ci, 'gsize', n))
-        jobs.append([4, env, [], model_decls(globs)])
-        owner.append((ci, 'nglobals', None))
-        rmap = {rn: (ps, ls, st) for rn, ps, ls, st in exp['routines']}
-        for qi, (rn, vn, path) in enumerate(c['queries']):
-            ps, ls, st = rmap[rn]
-            t = dict(ps + ls + st + exp['shared'])[vn]
-            jobs.append([5, env, S.model_ty(t), path])
-            owner.append((ci, 'dotted', qi))
-        for qi, (rn, vn) in enumerate(c['var_queries']):
-            ps, ls, st = rmap[rn]
-            jobs.append([2, env, model_decls(ps), model_decls(ls), vn])
-            owner.append((ci, 'varq', qi))
-        for qi, vn in enumerate(c['gvar_queries']):
-            jobs.append([3, env, model_decls(globs), vn])
-            owner.append((ci, 'gvarq', qi))
+        jobs.append([10, env, model_decls(exp['shared']),
+                     [[rn, model_decls(ps), model_decls(ls), model_decls(st)]
+                      for rn, ps, ls, st in exp['routines']],
+                     c['queries'], c['var_queries'], c['gvar_queries']])
     mouts = vlib.run_model(exe, jobs)
     per = {}
-    for o, m in zip(owner, mouts):
-        per.setdefault(o[0], {})[(o[1], o[2])] = m
+    for ci, (c, mo) in enumerate(zip(cases, mouts)):
+        m = {}
+        if isinstance(mo, str) or mo == [-999, -999, -999]:
+            m[('job', None)] = mo if isinstance(mo, str) else '!sx_bad'
+        else:
+            for (rn, ps, ls, st), rep in zip(c['exp']['routines'], mo[0]):
+                m[('routine', rn)] = rep
+            m[('gnames', None)] = mo[1]
+            for (n, t), g in zip(c['globs'], mo[2]):
+                m[('gidx', n)] = g[0]
+                m[('gsize', n)] = g[1]
+            m[('nglobals', None)] = mo[3]
+            for qi, d in enumerate(mo[4]):
+                m[('dotted', qi)] = d
+            for qi, d in enumerate(mo[5]):
+                m[('varq', qi)] = d
+            for qi, d in enumerate(mo[6]):
+                m[('gvarq', qi)] = d
+        per[ci] = m
     nbad = 0
     for ci, (c, raw) in enumerate(zip(cases, raws)):
         bad = fn_compare(c, raw, per.get(ci, {}))
@@ -194,7 +199,7 @@ def run_fn_suite(ctx, exe, cases, suite):
             ctx.report(f'C04/layout-{what}', {'suite': suite, 'seq': c['seq'], 'q': c['q'],
                                               'src': c['src'], 'detail': bad[2]}, found)
     ctx.count(suite, len(cases), set(json.dumps([c['seq'], c['q']]) for c in cases))
-    ctx.bump('fn_model_jobs', len(jobs))
+    ctx.bump("fn_model_jobs", len(jobs))
     if cases:
         c = cases[len(cases) // 2]
         ctx.sample({'suite': suite, 'case': ' '.join(c['seq']) + f' salt={c["q"]}'})
@@ -235,9 +240,12 @@ def fn_compare(c, raw, m):
             return ('var-index-differs', False, [rn, idx_impl, rep[0]])
         if ok(r['psize']) != rep[1] or ok(r['lsize']) != rep[2]:
             return ('frame-size-differs', False, [rn, r['psize'], r['lsize'], rep[1:]])
-        fr = [f for f in raw['frames'] if f[0] == rn]
-        if len(fr) != 1 or [0, fr[0][1]] != rep[1] or [0, fr[0][2]] != rep[2]:
-            return ('frame-operands-differ', False, [rn, fr, rep[1:]])
+        if rep[3] != len(ps):
+            return ('model-died', False, [rn, 'params_size_fixed', rep[3]])
+        if raw['frames'] is not None:
+            fr = [f for f in raw['frames'] if f[0] == rn]
+            if len(fr) != 1 or [0, fr[0][1]] != rep[1] or [0, fr[0][2]] != rep[2]:
+                return ('frame-operands-differ', False, [rn, fr, rep[1:]])
     gn = [''.join(chr(x) for x in n) for n in m[('gnames', None)]]
     if [g[0] for g in raw['globals']] != gn:
         return ('global-names-differ', False, [[g[0] for g in raw['globals']], gn])
@@ -248,7 +256,7 @@ def fn_compare(c, raw, m):
             return ('global-index-differs', False, [g, m[('gidx', g[0])]])
         if ok(g[3]) != m[('gsize', g[0])]:
             return ('type-size-differs', False, [g, m[('gsize', g[0])]])
-    if [0, raw['nglobals']] != m[('nglobals', None)][1]:
+    if [0, raw['nglobals']] != m[('nglobals', None)]:
         return ('nglobals-differs', False, [raw['nglobals'], m[('nglobals', None)]])
     for qi, d in enumerate(raw['dotted']):
         if ok(d) != m[('dotted', qi)]:
@@ -263,32 +271,42 @@ def fn_compare(c, raw, m):
 
 
 def fn_suite(ctx, exe, tier):
-    cases = []
+    """direct: symbol tables built without the parser, exhaustive; compiled: the
+    same programs through the real front end and assembler, a sub-sample (one
+    array declaration costs the pyparsing front end ~0.1 s)"""
+    maxlen = 3 if tier == 'quick' else 4
+    direct, compiled = [], []
     q = 0
-    for n in range(1, 4):
-        for seq in itertools.product(SHAPES, repeat=n):
-            cases.append(fn_case(seq, q, full=(n <= 2)))
+    for n in range(1, maxlen + 1):
+        for k, seq in enumerate(itertools.product(SHAPES, repeat=n)):
+            c = fn_case(seq, q, full=(n <= 2))
+            direct.append(c)
+            if tier == 'quick':
+                take = n == 1 or (n == 2 and k % 3 == 0) or (n == 3 and k % 36 == 0)
+            else:
+                take = n <= 2 or (n == 3 and k % 6 == 0) or (n == 4 and k % 432 == 0)
+            if take:
+                compiled.append(c)
             q += 1
-    n4 = 0
-    if tier != 'quick':
-        # length 4: a deterministic 1-in-5 sub-sample of the 20736 sequences (offset from the seed)
-        off = ctx.seed % 5
-        for k, seq in enumerate(itertools.product(SHAPES, repeat=4)):
-            if k % 5 == off:
-                cases.append(fn_case(seq, q + k))
-                n4 += 1
-    ctx.rule.append(f'a(T-fn): every sequence of 1..3 declarations over the 12 shapes {SHAPES} (1884 programs)'
-                    + (f' + every 5th sequence of length 4 ({n4})' if n4 else '') +
-                    ', each declared as DIM SHARED, main locals, SUB parameters, SUB locals and STATIC '
-                    '(length <= 2 also FUNCTION parameters/locals with _retval and a STATIC SUB); '
-                    'array bounds cycle through all 21 pairs lb<=ub in -2..3, ranks 1-3, arrays of (nested) records, '
-                    'dynamic arrays; get_local_var_idx/get_global_var_idx/get_type_size/get_params_size/'
-                    'get_local_vars_size/get_dotted_index (all field chains + malformed queries), the frame '
-                    'operands and n_global_cells of the assembled module vs Models/Layout.v; non-trivial = distinct program')
-    for c in cases:
+    ctx.rule.append(f'a(T-fn): every sequence of 1..{maxlen} declarations over the 12 shapes {SHAPES} '
+                    f'({len(direct)} shapes), each declared as DIM SHARED, main locals, SUB parameters, SUB locals '
+                    'and STATIC (length <= 2 also a second routine with _retval and a STATIC SUB); array bounds cycle '
+                    'through all 21 pairs lb<=ub in -2..3, ranks 1-3, arrays of (nested) records, dynamic arrays; '
+                    'get_local_var_idx/get_global_var_idx/get_type_size/get_params_size/get_local_vars_size/'
+                    'get_dotted_index (all field chains + malformed queries) of the real memlayout on symbol tables '
+                    f'built directly (suite layout_fn) and, for a deterministic sub-sample of {len(compiled)} of them, '
+                    'on the symbol tables the real front end produced from generated source together with the frame '
+                    'operands and n_global_cells of the assembled module (suite layout_fn_compiled), vs Models/Layout.v; '
+                    'non-trivial = distinct declaration sequence')
+    for c in direct:
         for s in c['seq']:
             ctx.bump('fn_shape_' + s)
-    return run_fn_suite(ctx, exe, cases, 'layout_fn')
+    # in the direct route a dynamic array is a `()` array and the FUNCTION is a SUB with a _retval local
+    for c in direct:
+        c['exp_direct'] = c['exp']
+    n1 = run_fn_suite(ctx, exe, direct, 'layout_fn', direct=True)
+    n2 = run_fn_suite(ctx, exe, compiled, 'layout_fn_compiled')
+    return n1 + n2
 
 
 def arr_suite(ctx, exe, tier):
@@ -307,7 +325,8 @@ def arr_suite(ctx, exe, tier):
         for i, b1 in enumerate(P):
             for j, b2 in enumerate(P):
                 for k, b3 in enumerate(P):
-                    if (i * 5 + j * 3 + k) % (97 if tier == 'quick' else 11):
+                    h = i * 5 + j * 3 + k
+                    if h % 97 and (tier == 'quick' or h % 11):
                         continue
                     cases.append({'es': es, 'bounds': [list(b1), list(b2), list(b3)]})
     raws = vlib.run_impl('layoutfn.array_init', cases)
@@ -347,7 +366,7 @@ def main(tier, seed):
     ]
     ctx.prove()
     exe = ctx.model('Layout')
-    mexe = ctx.model('Machine')
+    mexe = ctx.model('Mem')
     fn_suite(ctx, exe, tier)
     arr_suite(ctx, exe, tier)
     G.sentinel_suite(ctx, tier)
